@@ -6,7 +6,7 @@ from fractions import Fraction as F
 import numpy as np
 
 from harness import gallina as g
-from harness.util import import_df, js, attempt
+from harness.util import import_df, js, attempt, relayout, LAYOUTS
 
 df = import_df()
 
@@ -27,7 +27,8 @@ def gen_field(rng, nd=None):
     # operations carried out on the field's mesh BEFORE the integral is taken (stale-cache / in-place paths)
     pre = rng.choice([None, None, "scale2", "scale1/2", "translate"])
     return dict(sh=sh, nvdim=nvdim, cell=[g.qs(x) for x in cell], p1=[g.qs(x) for x in p1],
-                vals=[g.qs(v) for v in vals], dims=names, dtype=dtype, valid=valid, pre=pre)
+                vals=[g.qs(v) for v in vals], dims=names, dtype=dtype, valid=valid, pre=pre,
+                layout=rng.choice(LAYOUTS), layout_set=rng.random() < 0.5)
 
 
 def build(c, shift=None):
@@ -42,7 +43,10 @@ def build(c, shift=None):
     dt = {"float": float, "int": int, "none": None}[c.get("dtype", "float")]
     arr = np.array([float(F(x)) for x in c["vals"]], dtype=dt or float).reshape(*sh, c["nvdim"])
     valid = np.array(c.get("valid", [True] * math.prod(sh)), dtype=bool).reshape(*sh)
-    f = df.Field(mesh, nvdim=c["nvdim"], value=arr, dtype=dt, valid=valid)
+    lay = c.get("layout")
+    f = df.Field(mesh, nvdim=c["nvdim"], value=relayout(arr, lay), dtype=dt, valid=relayout(valid, lay))
+    if lay and c.get("layout_set"):
+        f.array = relayout(arr, lay)     # the setter keeps the caller's memory order
     pre = c.get("pre")
     if pre:
         f.integrate()            # touch every cached geometric quantity first
